@@ -4,6 +4,6 @@ EXTENDS MC_CacheD
 P(op, k, v, w, ttl) == [NoOp EXCEPT !.op = op, !.k = k, !.v = v, !.w = w, !.ttl = ttl]
 ProgsL1 == [c \in {"c0", "c1"} |-> IF c = "c0" THEN <<P("put", 1, 1, 2, -1), P("put", 1, 1, 1, -1), P("get", 1, -1, -1, -1)>>
                                     ELSE <<P("put", 1, 1, 2, -1), P("del", 1, -1, -1, -1)>>]
-CfgL1 == [max |-> 4, shards |-> 2, qsize |-> 2, pool |-> 1, buffer |-> 8, wf_base |-> 1, wf_mod |-> 1, wf_ttl |-> 0, clock0 |-> 10, hash |-> "id", dwf |-> FALSE]
+CfgL1 == [max |-> 4, shards |-> 2, qsize |-> 2, pool |-> 1, buffer |-> 8, wf_base |-> 1, wf_mod |-> 1, wf_ttl |-> 0, clock0 |-> 10, hash |-> "id", dwf |-> FALSE, counters |-> 64]
 EstL1 == [k \in {1, 2} |-> 0]
 =============================================================================
